@@ -146,6 +146,21 @@ pub fn build(
         if fields.iter().any(|(n, _)| *n == name.0) {
             anyhow::bail!("case `{name}` is defined more than once in enum `{resolvee_path}`");
         }
+        // A Rust enum cannot have two cases with one discriminant; the values are compared as
+        // they end up after the cast to the underlying type
+        let truncate = |v: isize| {
+            let bits = size.saturating_mul(8);
+            if bits == 0 || bits >= 128 {
+                v as u128
+            } else {
+                (v as u128) & ((1u128 << bits) - 1)
+            }
+        };
+        if let Some((other, _)) = fields.iter().find(|(_, v)| truncate(*v) == truncate(value)) {
+            anyhow::bail!(
+                "cases `{other}` and `{name}` of enum `{resolvee_path}` have the same value {value}"
+            );
+        }
         fields.push((name.0.clone(), value));
 
         for attribute in attributes {
